@@ -550,7 +550,20 @@ def rule_abandoned_ballot(ctx: Ctx) -> None:
     ctx.ob("C12-15", "G2", ha, decs[0] if decs else None, bool(okd), "PaxosNode decides only on a path that counted this Accepted for a running ballot")
 
 
+def rule_supplied_state_machine_is_used(ctx: Ctx) -> None:
+    """C12-6: the log-based nodes apply decided commands to the state machine they were given whenever one was given (`is not None`, not
+    truthiness — an empty journal-like machine with `__len__` is falsy and would be swapped for a private KVStateMachine)."""
+    prog = ctx.prog
+    for rel, cname in ((MP, "MultiPaxosNode"), (FP, "FlexiblePaxosNode")):
+        init = prog.func(rel, f"{cname}.__init__")
+        sm = [s_ for s_ in walk_stmts(init.node.body) if isinstance(s_, ast.Assign) and path_of(s_.targets[0]) == "self._state_machine"]
+        ok = len(sm) == 1 and ((isinstance(sm[0].value, ast.IfExp) and {f.sig for f in atoms(sm[0].value.test, True)} == {("isnot", "state_machine", "None")} and path_of(sm[0].value.body) == "state_machine")
+                               or path_of(sm[0].value) == "state_machine")
+        ctx.ob("C12-6", "G7", init, sm[0] if sm else None, ok, f"{cname} keeps the supplied state machine (`state_machine if state_machine is not None else …`)")
+
+
 def run(ctx: Ctx) -> None:
+    ctx.guarded(rule_supplied_state_machine_is_used)
     ctx.guarded(rule_ballot_order)
     ctx.guarded(rule_acceptor)
     ctx.guarded(rule_acceptor_pairing)
@@ -568,6 +581,7 @@ def run(ctx: Ctx) -> None:
 
 
 MUTANTS = [
+    ("multipaxos-falsy-state-machine-discarded", MP, "state_machine if state_machine is not None else KVStateMachine()", "state_machine or KVStateMachine()", "C12-6"),
     ("multipaxos-overtaken-candidacy-takes-over", MP, '        if self._current_ballot != Ballot(ballot_number, self.name):\n            # This candidacy has been overtaken (a higher ballot was adopted\n            # since): its late promises must not make this node lead.\n            return []\n', "", "C12-4"),
     ("flexible-overtaken-candidacy-takes-over", FP, '        if self._current_ballot != Ballot(ballot_number, self.name):\n            # This candidacy has been overtaken (a higher ballot was adopted\n            # since): its late promises must not make this node lead.\n            return []\n', "", "C12-4"),
     ("paxos-retry-keeps-old-accept-tally", PAX, "            self._phase2_responses.pop(original_ballot, None)\n", "", "C12-15"),
